@@ -515,7 +515,8 @@ def run(ctx):
             raise Broken("vacuity: no transition generated for %s in %s" % (missing, cfg))
         for k, v in seen.items():
             per_op[k] = per_op.get(k, 0) + v
-        objcheck.replay_cover(ctx, g, [tok(INIT)], exe, variant, ["table"], keyfn, walks=walks, jobs=4)
+        objcheck.replay_cover(ctx, g, [tok(INIT)], exe, variant, ["table"], keyfn, walks=walks, jobs=4,
+                              pairs=60000 if ctx.tier == "quick" else 400000)
         del g
     ctx.cov["edges_per_op"] = dict(sorted(per_op.items()))
     trace_validation(ctx, exe)
@@ -523,7 +524,9 @@ def run(ctx):
     ctx.cov["rule"] = ("every transition TLC generates for MBuffObj in the bounded scope is executed once (through the class table) as the "
                        "last step of a script whose prefix consists of already verified transitions; bytes, length, return value and "
                        "representation invariants (buff==NULL => len=size=0, size>=len, allocation>=size) are compared after every step "
-                       "and the heap balance at the end of every script; plus random walks; plus TLC validation of recorded executions")
+                       "and the heap balance at the end of every script; the slack bytes between len and size are overwritten with adversarial "
+                       "content after every step; plus a sampled 2-step cover (verified state-changing edge followed by every edge "
+                       "enabled behind it), random walks, and TLC validation of recorded executions")
     ctx.assumptions += ["ASan build of the current tree (clang -O1), arguments are exact-size heap copies without terminator",
                         "DEBUG_LEVEL 0; NULL object arguments are C16's subject, not exercised here (NULL pointers are)"]
 
